@@ -512,8 +512,8 @@ def run_case(rep, rng, row, origin, bpath, call_args, args, rkind, lines, expect
         def script(i, req):
             return make_response(req, status, content)
     cap.script = script
-    target = getattr(api, attr) if attr else api
-    outcome, value = classify_outcome(lambda: getattr(target, method)(**call_args))
+    # (the operation is reached the way an application reaches it: through the attribute of the ManagementApi object)
+    outcome, value = classify_outcome(lambda: getattr(getattr(api, attr) if attr else api, method)(**call_args))
     label = '%s%s' % (op, (' [%s]' % guard) if guard else '')
     replay = {'op': op, 'guard': guard, 'call_args': call_args, 'args': args, 'origin': origin, 'bpath': bpath,
               'status': status, 'content_hex': content.hex() if isinstance(content, bytes) else content.__name__}
@@ -640,7 +640,10 @@ def signature_defaults(attr, method):
     """default values of the public method's parameters (its documented signature)"""
     import inspect
     api, _ = new_api('http://localhost', '')
-    fn = getattr(getattr(api, attr) if attr else api, method)
+    try:
+        fn = getattr(getattr(api, attr) if attr else api, method)
+    except AttributeError:          # the operation is not reachable: the call itself will show that
+        return {}
     return {k: p.default for k, p in inspect.signature(fn).parameters.items() if p.default is not inspect.Parameter.empty}
 
 
